@@ -5,65 +5,18 @@ import (
 	"context"
 	"fmt"
 	"os"
-	"sort"
 	"strings"
 	"testing"
 	"time"
 
-	"perkeep.org/pkg/blob"
-	"perkeep.org/pkg/index"
-	"perkeep.org/pkg/vsync"
 
 	"verif/hs"
+	"verif/idxsets"
 	"verif/sched"
 	"verif/vk"
 )
 
 var ctx = context.Background()
-
-// inst is one index over harness rows and a harness blob source.
-type inst struct {
-	kv  *hs.KV
-	src *hs.Mem
-	ix  *index.Index
-}
-
-func newInst() *inst {
-	in := &inst{kv: hs.NewKV("index"), src: hs.NewMem("src")}
-	in.open()
-	return in
-}
-
-// open (re)opens the index over the current rows: a restart.
-func (in *inst) open() {
-	ix, err := index.New(in.kv)
-	if err != nil {
-		panic(err)
-	}
-	ix.KeyFetcher = in.src
-	ix.InitBlobSource(in.src)
-	in.ix = ix
-}
-
-func (in *inst) feed(b hs.Blob) error {
-	in.src.Put(b)
-	_, err := in.ix.ReceiveBlob(ctx, b.Ref, strings.NewReader(string(b.Data)))
-	return err
-}
-
-func (in *inst) dump() string { return in.kv.Dump() }
-
-// canonical returns the row dump of the dependency-ordered run.
-func canonical(s BlobSet) string {
-	in := newInst()
-	for _, b := range s.Canon {
-		if err := in.feed(b); err != nil {
-			panic(fmt.Sprintf("canonical run of %s: feeding %s: %v", s.Name, b.Name, err))
-		}
-		in.ix.VerifAwaitReindex()
-	}
-	return in.dump()
-}
 
 func names(bs []hs.Blob) []string {
 	out := make([]string, len(bs))
@@ -95,102 +48,33 @@ func permutations(n int) [][]int {
 	return out
 }
 
-// diffDump describes the first rows that differ.
-func diffDump(got, want string) string {
-	g, w := strings.Split(got, ";"), strings.Split(want, ";")
-	gm, wm := map[string]bool{}, map[string]bool{}
-	for _, r := range g {
-		gm[r] = true
-	}
-	for _, r := range w {
-		wm[r] = true
-	}
-	var extra, missing []string
-	for _, r := range g {
-		if !wm[r] {
-			extra = append(extra, r)
-		}
-	}
-	for _, r := range w {
-		if !gm[r] {
-			missing = append(missing, r)
-		}
-	}
-	sort.Strings(extra)
-	sort.Strings(missing)
-	clip := func(l []string) []string {
-		if len(l) > 4 {
-			l = append(l[:4:4], fmt.Sprintf("... %d more", len(l)-4))
-		}
-		return l
-	}
-	return fmt.Sprintf("rows only in this run: %q; rows only in the dependency-ordered run: %q", clip(extra), clip(missing))
-}
-
-// rowFamily names the row family of the first differing row, for signatures.
-func rowFamily(got, want string) string {
-	g, w := strings.Split(got, ";"), strings.Split(want, ";")
-	wm := map[string]bool{}
-	for _, r := range w {
-		wm[r] = true
-	}
-	gm := map[string]bool{}
-	for _, r := range g {
-		gm[r] = true
-	}
-	fam := map[string]bool{}
-	add := func(r string) {
-		i := strings.IndexAny(r, "|:=")
-		if i < 0 {
-			i = len(r)
-		}
-		fam[r[:i]] = true
-	}
-	for _, r := range g {
-		if !wm[r] {
-			add(r)
-		}
-	}
-	for _, r := range w {
-		if !gm[r] {
-			add(r)
-		}
-	}
-	var l []string
-	for f := range fam {
-		l = append(l, f)
-	}
-	sort.Strings(l)
-	return strings.Join(l, "+")
-}
-
 // sequential enumerates every arrival permutation x restart position x duplicate delivery.
-func sequential(res *vk.Result, s BlobSet, k0 int, deadline time.Time) {
+func sequential(res *vk.Result, s idxsets.BlobSet, k0 int, deadline time.Time) {
 	sc := res.Scenario("sequential/" + s.Name)
 	sc.Bound = fmt.Sprintf("all %d! arrival permutations x restart after every prefix (or none) x duplicate re-delivery of everything; then Reindex", len(s.Canon))
-	want := canonical(s)
+	want := idxsets.Canonical(s)
 	perms := permutations(len(s.Canon))
 	run := func(perm []int, restartAfter int, dup bool) (string, string) {
-		in := newInst()
+		in := idxsets.NewInst()
 		for i, pi := range perm {
-			if err := in.feed(s.Canon[pi]); err != nil {
+			if err := in.Feed(s.Canon[pi]); err != nil {
 				return "feed-error", fmt.Sprintf("ReceiveBlob(%s) failed: %v", s.Canon[pi].Name, err)
 			}
-			in.ix.VerifAwaitReindex()
+			in.Ix.VerifAwaitReindex()
 			if i+1 == restartAfter {
-				in.open()
+				in.Open()
 			}
 		}
 		if dup {
 			for _, pi := range perm {
-				if err := in.feed(s.Canon[pi]); err != nil {
+				if err := in.Feed(s.Canon[pi]); err != nil {
 					return "dup-feed-error", fmt.Sprintf("duplicate ReceiveBlob(%s) failed: %v", s.Canon[pi].Name, err)
 				}
-				in.ix.VerifAwaitReindex()
+				in.Ix.VerifAwaitReindex()
 			}
 		}
-		if got := in.dump(); got != want {
-			return "rows-differ|" + rowFamily(got, want), diffDump(got, want)
+		if got := in.Dump(); got != want {
+			return "rows-differ|" + idxsets.RowFamily(got, want), idxsets.DiffDump(got, want)
 		}
 		return "", ""
 	}
@@ -249,16 +133,16 @@ func sequential(res *vk.Result, s BlobSet, k0 int, deadline time.Time) {
 	}
 	// full reindex from blob storage must give the same rows
 	if vk.Mine(k0) {
-		in := newInst()
+		in := idxsets.NewInst()
 		for _, b := range s.Canon {
-			in.src.Put(b)
+			in.Src.Put(b)
 		}
-		err := in.ix.Reindex()
+		err := in.Ix.Reindex()
 		sc.Executions++
 		if len(s.Absent) == 0 && err != nil {
 			res.Violate(sc, "C05|reindex|"+s.Name+"|error", fmt.Sprintf("Reindex of a complete blob set failed: %v", err), map[string]any{"engine": "reindex", "set": s.Name})
-		} else if got := in.dump(); got != want {
-			res.Violate(sc, "C05|reindex|"+s.Name+"|rows-differ|"+rowFamily(got, want), "Reindex from blob storage: "+diffDump(got, want), map[string]any{"engine": "reindex", "set": s.Name})
+		} else if got := in.Dump(); got != want {
+			res.Violate(sc, "C05|reindex|"+s.Name+"|rows-differ|"+idxsets.RowFamily(got, want), "Reindex from blob storage: "+idxsets.DiffDump(got, want), map[string]any{"engine": "reindex", "set": s.Name})
 		}
 	}
 	// pending, not dropped
@@ -271,91 +155,12 @@ func sequential(res *vk.Result, s BlobSet, k0 int, deadline time.Time) {
 	}
 }
 
-// partitions of the arrival order perm over k goroutines (each keeps the relative order).
-func partitions(n, k int) [][]int {
-	var out [][]int
-	assign := make([]int, n)
-	var rec func(i, used int)
-	rec = func(i, used int) {
-		if i == n {
-			if used == k {
-				out = append(out, append([]int{}, assign...))
-			}
-			return
-		}
-		for g := 0; g <= used && g < k; g++ {
-			assign[i] = g
-			nu := used
-			if g == used {
-				nu++
-			}
-			rec(i+1, nu)
-		}
-	}
-	rec(0, 0)
-	return out
-}
-
-func concurrentScenario(s BlobSet, perm []int, assign []int, k, bound int, want string) *sched.Config {
-	order := make([]string, len(perm))
-	for i, p := range perm {
-		order[i] = fmt.Sprintf("%s@g%d", s.Canon[p].Name, assign[i])
-	}
-	name := fmt.Sprintf("concurrent/%s/%s", s.Name, strings.Join(order, ","))
-	return &sched.Config{Name: name, Bound: bound, SigPrefix: "C05|concurrent|" + s.Name,
-		Body: func(x *sched.X) {
-			in := &inst{kv: hs.NewKV("index"), src: hs.NewMem("src")}
-			in.src.Hook = func(store, op string, br blob.Ref) error {
-				vsync.Point("src." + op)
-				return nil
-			}
-			in.kv.Hook = func(kv, op, key string) error {
-				vsync.Point("kv." + op)
-				return nil
-			}
-			in.open()
-			var feedErr error
-			for g := 0; g < k; g++ {
-				g := g
-				x.Go(fmt.Sprintf("g%d", g), func() {
-					for i, p := range perm {
-						if assign[i] != g {
-							continue
-						}
-						b := s.Canon[p]
-						// the blob is in storage before the indexer is told (as blobserver.Receive + sync do)
-						in.src.Put(b)
-						if _, err := in.ix.ReceiveBlob(ctx, b.Ref, strings.NewReader(string(b.Data))); err != nil && feedErr == nil {
-							feedErr = fmt.Errorf("ReceiveBlob(%s): %v", b.Name, err)
-						}
-					}
-				})
-			}
-			x.Run()
-			if x.Deadlock {
-				x.Fail("deadlock", "indexing did not finish: "+strings.Join(x.S.ParkedLabels(), " "))
-				return
-			}
-			if x.Horizon {
-				return
-			}
-			if feedErr != nil {
-				x.Fail("feed-error", feedErr.Error())
-				return
-			}
-			in.ix.VerifAwaitReindex()
-			if got := in.dump(); got != want {
-				x.Fail("rows-differ|"+rowFamily(got, want), diffDump(got, want))
-			}
-		}}
-}
-
 func TestCheck(t *testing.T) {
 	defer vk.Cleanup()
 	res := vk.New("C05")
 	res.Rule = "sequential: every arrival permutation of each blob set x (no restart | index.New over the same rows after prefix k, every k) x (with | without a duplicate delivery of every blob), plus Index.Reindex from storage; concurrent: every partition of an arrival order over 2-3 goroutines x every schedule with <= bound preemptions at index locks, blob-source fetches and KV calls; verdict = complete row dump equals the dependency-ordered run; distinct = distinct (variant, verdict) resp. distinct (decision shape, verdict)"
 	res.Assumptions = []string{"blob sets of <= 6 blobs built from two test signers", "harness in-memory KV under the index", "readyReindex map iteration order inside perkeep is not controlled"}
-	ss := sets()
+	ss := idxsets.Sets()
 	if rp, ok := vk.ReplayFile(); ok {
 		replay(t, res, ss, rp)
 		res.Write()
@@ -380,7 +185,7 @@ func TestCheck(t *testing.T) {
 			if n > 5 {
 				continue
 			}
-			want := canonical(s)
+			want := idxsets.Canonical(s)
 			// arrival orders: the dependency order and its reverse (dependencies last)
 			canon := make([]int, n)
 			rev := make([]int, n)
@@ -393,8 +198,8 @@ func TestCheck(t *testing.T) {
 					if k == 3 && !vk.Thorough() && n > 3 {
 						continue
 					}
-					for _, assign := range partitions(n, k) {
-						sched.Explore(t, concurrentScenario(s, perm, assign, k, bound, want), res, deadline)
+					for _, assign := range idxsets.Partitions(n, k) {
+						sched.Explore(t, idxsets.ConcurrentScenario("C05|concurrent|", s, perm, assign, k, bound, want), res, deadline)
 					}
 				}
 			}
@@ -404,7 +209,7 @@ func TestCheck(t *testing.T) {
 	res.Write()
 }
 
-func replay(t *testing.T, res *vk.Result, ss []BlobSet, rp map[string]any) {
+func replay(t *testing.T, res *vk.Result, ss []idxsets.BlobSet, rp map[string]any) {
 	r, _ := rp["replay"].(map[string]any)
 	res.EngineError("replay of C05 cases: re-run the check; the case is described in the replay file (%v)", r["engine"])
 }
